@@ -169,6 +169,7 @@ pub fn run(ctx: &mut Ctx) {
     }
     if ctx.extra.get("mode").map(|s| s.as_str()) != Some("diff-only") {
         sync_impl::concurrent(ctx);
+        sync_impl::rounds(ctx);
     }
 }
 
@@ -315,6 +316,198 @@ mod sync_impl {
             }
             _ => {}
         }
+    }
+
+    /// Concurrent query batches alternating with state changes (tag set assignment/union/
+    /// difference, discard-policy change, serialize+reload into the same engine), the state
+    /// change being made by yet another thread. After every change, each thread's answers must
+    /// equal those of a fresh engine built sequentially for the model state.
+    pub fn rounds(ctx: &mut Ctx) {
+        let sub = "rounds";
+        let tsan = ctx.extra.contains_key("tsan");
+        if ctx.extra.contains_key("miri") {
+            return;
+        }
+        verif::set_pre_acquire(Some(Box::new(pre_acquire)));
+        let cases = if tsan { ctx.n(24, 240) } else { ctx.n(480, 12_000) };
+        for idx in 0..cases {
+            if ctx.stop() {
+                break;
+            }
+            if !ctx.begin_case(sub, idx) {
+                continue;
+            }
+            let seed = ctx.seed;
+            let mut r = Rng::for_case(seed ^ 0xC19, "c19.rounds", idx);
+            let nthreads = [3usize, 8, 5, 12][(idx % 4) as usize];
+            DELAY_SEED.store(seed ^ idx, Ordering::Relaxed);
+            DELAY_MODE.store(idx % 3, Ordering::Relaxed);
+            let mut rules = gen_engine_rules(&mut r);
+            // tagged regex twins: switching tags frees and re-allocates these rules
+            for k in 1..=4 {
+                rules.push(format!("/track*r{}^$tag=t{}", k, k));
+                rules.push(format!("/\\/banner\\/[{}]x/$tag=t{}", k, k));
+                rules.push(format!("/advert*q{}|$tag=t{},script", k, (k % 4) + 1));
+            }
+            r.shuffle(&mut rules);
+            let mut qs = gen_queries(&mut r, &rules, if tsan { 40 } else { 120 });
+            for k in 1..=4 {
+                qs.push(Q::Net(format!("https://x.com/track/zr{}/", k), "https://o.org/".into(), "image"));
+                qs.push(Q::Net(format!("https://x.com/banner/{}x", k), "https://o.org/".into(), "image"));
+                qs.push(Q::Net(format!("https://x.com/advert-q{}", k), "https://o.org/".into(), "script"));
+            }
+            r.shuffle(&mut qs);
+            let optimize = r.chance(1, 2);
+            let policy = [2u8, 2, 1, 0][r.below(4)];
+            let mut tags: BTreeSet<&'static str> = ["t1", "t3"].into_iter().collect();
+            let built = guarded(|| build(&rules, optimize, policy));
+            let mut e = match built {
+                Ok(e) => e,
+                Err(sig) => {
+                    ctx.violation(sub, idx, &format!("C19:sequential:{}", sig), json!({"rules": rules}));
+                    continue;
+                }
+            };
+            let nrounds = 3 + r.below(4);
+            let mut history: Vec<String> = vec![];
+            let mut changes = 0;
+            'rounds: for round in 0..nrounds {
+                if round > 0 {
+                    // the state change is made on its own thread
+                    let pool = ["t1", "t2", "t3", "t4"];
+                    let pick: Vec<&'static str> = pool.iter().filter(|_| r.chance(1, 2)).cloned().collect();
+                    let mut op = r.below(5);
+                    if op == 3 && rules.iter().any(|l| l.contains("removeparam")) {
+                        // removeparam rules do not survive serialization (known finding, homed in C08)
+                        op = 4;
+                    }
+                    let desc = match op {
+                        0 => {
+                            tags = pick.iter().cloned().collect();
+                            format!("use_tags({:?})", pick)
+                        }
+                        1 => {
+                            tags.extend(pick.iter().cloned());
+                            format!("enable_tags({:?})", pick)
+                        }
+                        2 => {
+                            for t in &pick {
+                                tags.remove(t);
+                            }
+                            format!("disable_tags({:?})", pick)
+                        }
+                        3 => "serialize+deserialize into the same engine".to_string(),
+                        _ => "no change".to_string(),
+                    };
+                    let e_mut = &mut e;
+                    let res = std::thread::scope(|s| {
+                        s.spawn(move || {
+                            guarded(|| match op {
+                                0 => e_mut.use_tags(&pick),
+                                1 => e_mut.enable_tags(&pick),
+                                2 => e_mut.disable_tags(&pick),
+                                3 => {
+                                    let buf = e_mut.serialize_raw().expect("serialize");
+                                    e_mut.deserialize(&buf).expect("deserialize");
+                                }
+                                _ => {}
+                            })
+                        })
+                        .join()
+                    });
+                    let failed: Option<String> = match res {
+                        Ok(Ok(())) => None,
+                        Ok(Err(sig)) => Some(sig),
+                        Err(_) => Some("state-change thread died".to_string()),
+                    };
+                    if let Some(sig) = failed {
+                        ctx.violation(sub, idx, &format!("C19:state-change-panicked:{}", sig), json!({"rules": rules, "history": history, "op": desc}));
+                        break 'rounds;
+                    }
+                    history.push(desc);
+                    if op < 4 {
+                        changes += 1;
+                    }
+                }
+                // sequential model: a fresh engine in the model state, queried on this thread
+                let tagv: Vec<&str> = tags.iter().cloned().collect();
+                let expected = guarded(|| {
+                    let mut f = build(&rules, optimize, 2);
+                    f.use_tags(&tagv);
+                    qs.iter().map(|q| answer(&f, q)).collect::<Vec<String>>()
+                });
+                let expected = match expected {
+                    Ok(x) => x,
+                    Err(sig) => {
+                        ctx.violation(sub, idx, &format!("C19:sequential:{}", sig), json!({"rules": rules}));
+                        break 'rounds;
+                    }
+                };
+                let (tx, rx) = mpsc::channel::<(usize, Result<Vec<(usize, String)>, String>)>();
+                let mut results = vec![];
+                let mut hung = false;
+                std::thread::scope(|s| {
+                    for t in 0..nthreads {
+                        let tx = tx.clone();
+                        let e = &e;
+                        let qs = &qs;
+                        s.spawn(move || {
+                            let r = guarded(|| {
+                                let off = t * qs.len() / nthreads;
+                                (0..qs.len()).map(|k| ((k + off) % qs.len(), answer(e, &qs[(k + off) % qs.len()]))).collect::<Vec<_>>()
+                            });
+                            let _ = tx.send((t, r));
+                        });
+                    }
+                    drop(tx);
+                    for _ in 0..nthreads {
+                        match rx.recv_timeout(Duration::from_secs(120)) {
+                            Ok(x) => results.push(x),
+                            Err(_) => {
+                                hung = true;
+                                break;
+                            }
+                        }
+                    }
+                    if hung {
+                        eprintln!("abverif: C19 round did not complete within 120 s (case {})", idx);
+                        std::process::abort();
+                    }
+                });
+                ctx.obs("rounds_run", 1);
+                for (t, res) in results {
+                    match res {
+                        Err(sig) => {
+                            let s = if sig.contains("Poison") { "C19:lock-poisoned".to_string() } else { format!("C19:thread-panicked:{}", sig) };
+                            ctx.violation(sub, idx, &s, json!({"rules": rules, "thread": t, "threads": nthreads, "history": history}));
+                        }
+                        Ok(answers) => {
+                            for (i, a) in answers {
+                                ctx.eval();
+                                if a != expected[i] {
+                                    ctx.violation(
+                                        sub,
+                                        idx,
+                                        "C19:concurrent-answer-differs-from-sequential-after-state-change",
+                                        json!({"rules": rules, "threads": nthreads, "thread": t, "round": round, "history": history, "enabled_tags": tagv,
+                                            "query": format!("{:?}", qs[i]), "concurrent": a, "sequential_fresh_engine": expected[i], "discard_policy": policy}),
+                                    );
+                                    break;
+                                }
+                            }
+                        }
+                    }
+                }
+            }
+            if changes >= 1 {
+                ctx.nontrivial(fnv(&format!("{:?}|{:?}", rules, history)));
+                ctx.obs("state_changes_between_concurrent_rounds", changes);
+            }
+            if idx % 16 == 0 {
+                ctx.sample_tagged("rounds", || json!({"threads": nthreads, "queries_per_thread_per_round": qs.len(), "history": history}));
+            }
+        }
+        verif::set_pre_acquire(None);
     }
 
     pub fn concurrent(ctx: &mut Ctx) {
